@@ -46,6 +46,9 @@ func c01Judge(env *hx.Env, files hx.Files) (hx.Verdict, string) {
 	if ok {
 		return hx.Pass, "compiled"
 	}
+	if raw == pg.BuildTimeout {
+		return hx.Verdict{OK: true, Inconclusive: true}, "build-timeout"
+	}
 	if len(errs) == 0 {
 		return hx.Failf("C01|build|unparsed", "go build failed:\n%s", raw), "build-failed"
 	}
